@@ -462,5 +462,19 @@ def replay(chk, path):
             for b in bad:
                 print(b)
             return 1 if bad else 0
+        if j.get('kind') == 'prog':
+            build_ext(d)
+            src = os.path.join(d, 'prog.c')
+            open(src, 'w').write(j['program'])
+            use_ext = 'ext_' in j['program']
+            ref, why = reference_run(src, d, 'prog', use_ext)
+            if ref is None:
+                print('the program is not a valid test any more:', why)
+                return 1
+            res = c2m_runs(c2m, src, d, use_ext)
+            print('gcc      rc=%d stdout=%r' % (ref[0], ref[1][-120:]))
+            for e in sorted(res):
+                print('%-8s rc=%d stdout=%r %s' % (e, res[e][0], res[e][1][-120:], '' if (res[e][0], res[e][1]) == ref else '   <-- differs'))
+            return 1 if prog_disagreements(ref, res) else 0
     print('nothing to replay in', path)
     return 1
